@@ -184,6 +184,9 @@ enum Alt {
     CutCompressed { arch: Arch },
     Missing { arch: Arch },
     Man(ManAlt),
+    /// the snapshot message declares no compression for this location (outside the property's
+    /// quantifier: the message comes from the aggregator, not the mirror) — observation only
+    DeclaredUncompressed { arch: Arch },
     /// target pre-state: a non-empty directory sits where this file must land
     PreDirAt { path: String },
     /// target pre-state: a regular file sits where this directory must be
@@ -199,6 +202,7 @@ impl Alt {
             | Alt::CutBoundary { arch, .. }
             | Alt::CutMid { arch, .. }
             | Alt::CutCompressed { arch }
+            | Alt::DeclaredUncompressed { arch }
             | Alt::Missing { arch } => Some(arch.clone()),
             Alt::AsSymlink { .. } | Alt::Man(_) => Some(Arch::Anc),
             Alt::PreDirAt { .. } | Alt::PreFileAt { .. } => None,
@@ -285,6 +289,7 @@ fn imm_extras(n: u64) -> Vec<Extra> {
         MANIFEST,
         "00001.chunk",
         "immutable/stray.txt",
+        "immutable/user-extra.txt",
         "immutable/sub/nested.txt",
         "../escape-dotdot.txt",
         "immutable/../ledger/dotdot-mid",
@@ -807,6 +812,8 @@ static T_RUN: AtomicUsize = AtomicUsize::new(0);
 static T_CLEAN: AtomicUsize = AtomicUsize::new(0);
 
 struct Observed {
+    /// the per-worker case directory (removed from every reported text)
+    root: String,
     result: Result<(), String>,
     before: Snap,
     after: Snap,
@@ -850,9 +857,10 @@ fn execute(w: &Worker, case: &Case) -> Observed {
             }
             for (p, c) in user_files() {
                 let full = target.join(p);
-                let parent_ok = full.parent().map(|d| d.is_dir() || !d.exists()).unwrap_or(true)
-                    && !full.ancestors().skip(1).any(|a| a.starts_with(&target) && a.is_file());
-                if parent_ok && !full.exists() {
+                // not where a pre-state fault put a node of another kind
+                let blocked = full.exists()
+                    || full.ancestors().skip(1).take_while(|a| a.starts_with(&target)).any(|a| a.exists() && !a.is_dir());
+                if !blocked {
                     write_file(&full, &c);
                 }
             }
@@ -875,6 +883,8 @@ fn execute(w: &Worker, case: &Case) -> Observed {
         Comp::Zstd => CompressionAlgorithm::Zstandard,
         Comp::Gzip => CompressionAlgorithm::Gzip,
     });
+    let declared = |arch: &Arch| if case.alts.iter().any(|a| matches!(a, Alt::DeclaredUncompressed { arch: x } if x == arch)) { None } else { alg };
+    let imm_uncompressed = (0..=BEACON).any(|n| declared(&Arch::Imm(n)).is_none());
     let message = CardanoDatabaseSnapshotMessage {
         hash: "c19-snapshot".into(),
         merkle_root: "c19-merkle-root".into(),
@@ -887,14 +897,14 @@ fn execute(w: &Worker, case: &Case) -> Observed {
             average_size_uncompressed: 2_100,
             locations: vec![ImmutablesLocation::CloudStorage {
                 uri: MultiFilesUri::Template(TemplateUri(format!("file://{}/imm-{{immutable_file_number}}.tar.z", mirror.display()))),
-                compression_algorithm: alg,
+                compression_algorithm: if imm_uncompressed { None } else { alg },
             }],
         },
         ancillary: AncillaryMessagePart {
             size_uncompressed: 5_000,
             locations: vec![AncillaryLocation::CloudStorage {
                 uri: format!("file://{}/ancillary.tar.z", mirror.display()),
-                compression_algorithm: alg,
+                compression_algorithm: declared(&Arch::Anc),
             }],
         },
         cardano_node_version: "10.4.1".into(),
@@ -930,7 +940,9 @@ fn execute(w: &Worker, case: &Case) -> Observed {
     T_SNAP.fetch_add(((t2 - t1) + (t4 - t3)).as_micros() as usize, Ordering::Relaxed);
     T_RUN.fetch_add((t3 - t2).as_micros() as usize, Ordering::Relaxed);
     T_CLEAN.fetch_add((t5 - t4).as_micros() as usize, Ordering::Relaxed);
-    Observed { result, before, after, anc: if cfg.ancillary { Some(anc) } else { None }, imm }
+    let root_s = root.to_string_lossy().into_owned();
+    let result = result.map_err(|e| e.replace(&root_s, "<case>"));
+    Observed { root: root_s, result, before, after, anc: if cfg.ancillary { Some(anc) } else { None }, imm }
 }
 
 // ------------------------------------------------------------------------------------------------
@@ -957,8 +969,12 @@ fn landing_path(raw: &str) -> Option<String> {
 /// reference does not decide (stream broke after a complete valid prefix; listed file served
 /// through a link).
 fn reference_valid(d: &Delivered, sg: &Signed) -> Option<bool> {
-    if d.missing || d.truncate_compressed {
+    if d.missing {
         return Some(false);
+    }
+    if d.truncate_compressed {
+        // how much of the archive a decoder still yields from a truncated stream is its own business
+        return None;
     }
     let es = d.delivered();
     let mut eff: BTreeMap<String, &Kind> = BTreeMap::new();
@@ -1023,6 +1039,7 @@ struct Judgement {
     kept_immutables: usize,
     unexpected_dirs: usize,
     preexisting_removed: usize,
+    raw_downloads_left: usize,
     target_changed: bool,
 }
 
@@ -1062,6 +1079,7 @@ fn judge(case: &Case, obs: &Observed) -> Judgement {
             .map(|k| format!("{k}: {} (before: {})", obs.after.get(k).map(show).unwrap_or("absent".into()), obs.before.get(k).map(show).unwrap_or("absent".into())))
             .collect::<Vec<_>>()
             .join("; ")
+            .replace(&obs.root, "<case>")
     };
     // where each served name lands: origin of unexpected nodes
     let mut origin: BTreeMap<String, String> = BTreeMap::new();
@@ -1141,6 +1159,13 @@ fn judge(case: &Case, obs: &Observed) -> Judgement {
             Node::File(c) => Some(c.clone()),
             _ => None,
         };
+        if rel.split('/').next().is_some_and(|f| f.starts_with("ancillary-")) {
+            j.violations.push((
+                "C19/ancillary-temp-dir-left-behind".into(),
+                format!("the client's temporary ancillary directory and what was unpacked into it are still in the target: {}", describe(std::slice::from_ref(k)).replace(char::is_control, " ")),
+            ));
+            continue;
+        }
         let from_anc = content.as_ref().is_some_and(|c| c.starts_with(b"ANC|"))
             || (content.is_none() && origin.get(rel).map(|o| o == "ANC").unwrap_or(false));
         // ancillary verification failed (or the option is off): nothing of that archive stays
@@ -1150,10 +1175,15 @@ fn judge(case: &Case, obs: &Observed) -> Judgement {
             } else {
                 "C19/ancillary-file-kept-although-verification-must-fail"
             };
+            let note = if key.ends_with("ambiguity") {
+                " (the served manifest replaces two signed entries by ONE entry whose name is name1‖hash1‖name2: it has the same manifest hash, so the honest signature verifies, although the key holder never signed that name and the two signed names are gone)"
+            } else {
+                ""
+            };
             j.violations.push((
                 key.into(),
                 format!(
-                    "the ancillary archive as delivered is not vouched by the configured key (reference verdict: invalid), yet `{rel}` from it is in the target: {}",
+                    "the ancillary archive as delivered is not vouched by the configured key (reference verdict: invalid){note}, yet `{rel}` from it is in the target: {}",
                     describe(std::slice::from_ref(k))
                 ),
             ));
@@ -1208,12 +1238,14 @@ fn judge(case: &Case, obs: &Observed) -> Judgement {
             _ => origin.get(rel).map(|o| o.split('|').next().unwrap_or("").to_string()).unwrap_or_default(),
         };
         let first = rel.split('/').next().unwrap_or("");
-        let key = if first.starts_with("ancillary-") {
-            "C19/ancillary-temp-dir-left-behind"
-        } else if org == "ANC" {
+        let _ = first;
+        let key = if org == "ANC" {
             "C19/unvouched-ancillary-entry-kept"
         } else if org == "IMM" {
-            if let Some(n) = trio_number(rel) {
+            if rel.starts_with("immutable/") && obs.before.contains_key(k) {
+                // the name was there before, so a clean-up by name keeps it — with the archive's bytes
+                "C19/preexisting-file-in-immutable-dir-overwritten-by-archive-entry"
+            } else if let Some(n) = trio_number(rel) {
                 // inside what the clean-up of today tolerates (0..=beacon, +1 with ancillary) or beyond it
                 if n <= BEACON + if cfg.ancillary { 1 } else { 0 } {
                     "C19/immutable-number-outside-range-survives"
@@ -1232,6 +1264,10 @@ fn judge(case: &Case, obs: &Observed) -> Judgement {
             } else {
                 "C19/immutable-archive-entry-outside-immutable-dir-survives"
             }
+        } else if case.alts.iter().any(|a| matches!(a, Alt::DeclaredUncompressed { .. })) {
+            // the raw download, stored under the download id: outside the property's quantifier
+            j.raw_downloads_left += 1;
+            continue;
         } else {
             "C19/unexplained-node-in-target"
         };
@@ -1353,6 +1389,13 @@ fn side_cases(thorough: bool) -> Vec<Case> {
     for c in configs(thorough) {
         // honest download with the default parallelism
         v.push(Case { config: Config { parallel: 20, ..c.clone() }, alts: vec![] });
+    }
+    for anc in [false, true] {
+        let config = Config { range: RangeSel::Range(2, 3), ancillary: anc, pre: Pre::Empty, comp: Comp::Zstd, layout: Layout::InMemory, parallel: 1 };
+        v.push(Case { config: config.clone(), alts: vec![Alt::DeclaredUncompressed { arch: Arch::Imm(2) }] });
+        if anc {
+            v.push(Case { config, alts: vec![Alt::DeclaredUncompressed { arch: Arch::Anc }] });
+        }
     }
     for pre in [Pre::UserFilesNoOverride, Pre::Missing] {
         for anc in [false, true] {
@@ -1636,6 +1679,7 @@ fn run_case(case: &Case, verbose: bool) -> Report {
     rep.add_extra("kept_ancillary_files", j.kept_from_ancillary as u64);
     rep.add_extra("observed_unexpected_empty_dirs", j.unexpected_dirs as u64);
     rep.add_extra("observed_preexisting_nodes_removed", j.preexisting_removed as u64);
+    rep.add_extra("observed_raw_downloads_left_in_target_when_message_declares_no_compression", j.raw_downloads_left as u64);
     if !case.alts.is_empty() && j.violations.is_empty() && j.target_changed {
         rep.sample(json!({"case": cj, "download": if ok { "ok" } else { "err" }, "verdict": "listing allowed"}));
     }
@@ -1697,6 +1741,16 @@ pub fn run(ctx: &Ctx) -> ! {
     rep.extra("cases_with_one_alteration", json!(cases.iter().filter(|c| c.alts.len() == 1).count()));
     rep.extra("cases_with_two_alterations", json!(cases.iter().filter(|c| c.alts.len() == 2).count()));
     rep.extra("max_simultaneous_alterations", json!(if thorough { 2 } else { 1 }));
+    rep.extra(
+        "alphabet",
+        json!({
+            "entries_added_to_an_immutable_archive": imm_extras(2).iter().map(|x| x.name.clone()).collect::<Vec<_>>(),
+            "entries_added_to_the_ancillary_archive": anc_extras().iter().map(|x| x.name.clone()).collect::<Vec<_>>(),
+            "manifest_alterations": ["HashChanged(i)", "EntryRemoved(i)", "MergeWithNext(i)", "EntryAddedFilePresent", "EntryAddedFileAbsent", "SigRemoved", "SigAltered", "SigOtherKey", "Missing", "Garbage", "SecondEvilLast", "SecondEvilFirst"],
+            "stream_faults_per_archive": ["CutBoundary(k) for every k", "CutMid(entry) for every entry", "CutCompressed", "Missing"],
+            "other": ["Remove(i)", "Tamper(i)", "AsSymlink(i, relative|absolute)", "PreDirAt(each listed ancillary file, first immutable .primary)", "PreFileAt(ledger|immutable)"],
+        }),
+    );
     let parts = par_map(&cases, ctx.threads(), |_, c| run_case(c, false));
     for p in parts {
         rep.merge(p);
